@@ -265,6 +265,8 @@ func scFees(ps ParamSet, wrong bool, depth, blocks, msgs int) *Scenario {
 	if wrong {
 		o.Withdraw = append(o.Withdraw, "O2:P1", "XX:", "XX:P1")
 		o.SetW = append(o.SetW, "XX:W1")
+		// a provider of the other owner bound to another service; an owner's own address bound as a provider by the other owner
+		o.BindOps = append(o.BindOps, actBind("ab", "P3", "O1", 10, "p2", 1), actBind("ab", "O1", "O2", 10, "p2", 1))
 	}
 	sc := &Scenario{
 		Name: "S-FEES", Params: ps,
@@ -294,6 +296,13 @@ var (
 	tModHalf = Template{Name: "modhalf", Consumer: "C2", Service: "a", Providers: []string{"P1", "P2"}, Cap: 5, Timeout: 1, Repeated: true, Freq: 1, Total: 2, Module: ModHalf, Threshold: 1}
 	tModDup  = Template{Name: "moddup", Consumer: "C2", Service: "a", Providers: []string{"P2"}, Cap: 5, Timeout: 1, Module: ModOther, Threshold: 1, SameTxAs: "mod1"}
 	tModDup2 = Template{Name: "moddup2", Consumer: "C1", Service: "a", Providers: []string{"P1", "P2"}, Cap: 5, Timeout: 2, Repeated: true, Freq: 2, Total: 2, Module: ModOther, Threshold: 2, SameTxAs: "mod2"}
+	tT0      = Template{Name: "t0", Consumer: "C1", Service: "a", Providers: []string{"P2"}, Cap: 5, Timeout: 0}
+	tTneg    = Template{Name: "tneg", Consumer: "C1", Service: "a", Providers: []string{"P2"}, Cap: 5, Timeout: -1}
+	tModTneg = Template{Name: "modtneg", Consumer: "C1", Service: "a", Providers: []string{"P1", "P2"}, Cap: 5, Timeout: -3, Module: ModOther, Threshold: 1}
+	tBadUTF8 = Template{Name: "latin1", Consumer: "C1", Service: "a", Providers: []string{"P2"}, Cap: 5, Timeout: 2, Repeated: true, Freq: 2, Total: 2, Input: "{\"header\":{},\"body\":{\"memo\":\"caf\xe9\"}}"}
+	tDupProv = Template{Name: "dupprov", Consumer: "C1", Service: "a", Providers: []string{"P1", "P2", "P1"}, Cap: 5, Timeout: 1, Repeated: true, Freq: 1, Total: 2}
+	tModP    = Template{Name: "modp", Consumer: "C1", Service: "a", Providers: []string{"P1"}, Cap: 5, Timeout: 1, Module: ModOther, Threshold: 1, StartPaused: true}
+	tModDupP = Template{Name: "moddupp", Consumer: "C2", Service: "a", Providers: []string{"P2"}, Cap: 5, Timeout: 1, Module: ModOther, Threshold: 1, StartPaused: true, SameTxAs: "modp"}
 	tRep1    = Template{Name: "rep1", Consumer: "C1", Service: "a", Providers: []string{"P2"}, Cap: 5, Timeout: 1, Repeated: true, Freq: 1, Total: 1}
 	tF3      = Template{Name: "f3", Consumer: "C1", Service: "a", Providers: []string{"P2"}, Cap: 5, Timeout: 1, Repeated: true, Freq: 3, Total: -1}
 	tOneTot  = Template{Name: "onetot", Consumer: "C1", Service: "a", Providers: []string{"P2"}, Cap: 5, Timeout: 1, Repeated: false, Freq: 0, Total: 3}
@@ -346,7 +355,7 @@ func bindOpsNames() []Action {
 	return []Action{
 		actDefine("a", "AU"), actDefine("ab", "AU"), actDefine("a", "XX"),
 		actDefine("Ab", "AU"), actDefine("Ab", "XX"), // names are case sensitive; a second "Ab" must be rejected like any other
-		actDefineBytes("u8", "AU"),
+		actDefineBytes("u8", "AU"), actDefineSplitTags("st", "AU"),
 		actBind("a", "P1", "O1", 10, "p1", 1),
 		actBind("ab", "P1", "O1", 10, "p2v", 1),
 		actBind("ab", "P1", "O2", 10, "p1", 1),
@@ -389,6 +398,7 @@ func init() {
 	// the module's own accounts, as targets of a withdrawal address
 	addrNames["REQ"] = sdk.AccAddress(reqAcc)
 	addrNames["DEP"] = sdk.AccAddress(depAcc)
+	addrNames["FEE"] = sdk.AccAddress(feeColl) // another module account of the host chain
 }
 
 var tMsvc = Template{Name: "callms", Consumer: "C1", Service: "ms", Providers: []string{"MSP"}, Cap: 5, Timeout: 1}
